@@ -218,4 +218,26 @@ theorem getters_in_range {s : Nets} (h : Wf s) (net : Nat) (hn : (net : Int) < n
   have hk : (pinIndex s net i).toNat < s.pins.length := by omega
   exact pinsInRange_getD h.inRange hk (-1)
 
+theorem telescope (l : List Int) : ∀ k : Nat,
+    ((List.range k).map (fun n => l.getD (n + 1) 0 - l.getD n 0)).sum = l.getD k 0 - l.getD 0 0
+  | 0 => by simp
+  | k + 1 => by
+    rw [List.range_succ, List.map_append, List.sum_append, telescope l k]
+    simp
+    omega
+
+theorem pins_partitioned {s : Nets} (h : Wf s) :
+    ((List.range (nbNets s).toNat).map (nbPinsNet s)).sum = nbPins s := by
+  have hl := List.length_pos_iff.mpr h.nonempty
+  have h0 : s.limits.getD 0 0 = 0 := head?_getD h.front
+  have hb := back_eq_getD h.nonempty
+  have ht := telescope s.limits (s.limits.length - 1)
+  have e : (nbNets s).toNat = s.limits.length - 1 := by unfold nbNets; omega
+  have hf : nbPinsNet s = fun n => s.limits.getD (n + 1) 0 - s.limits.getD n 0 := by
+    funext n; rfl
+  rw [e, hf, ht, h0]
+  unfold nbPins
+  rw [hb]
+  omega
+
 end ColoVerif.NetsValue
